@@ -6066,7 +6066,8 @@ func (t *Terminal) Loop() error {
 					t.pointer = pointer
 					t.pointerLen = length
 					t.pointerEmpty = strings.Repeat(" ", t.pointerLen)
-					req(reqList)
+					// The header lines are indented by the width of the pointer
+					req(reqList, reqHeader)
 				}
 			case actChangePreview:
 				if t.previewOpts.command != a.a {
